@@ -46,7 +46,8 @@ fn permissive<I: crate::helpers::TransportIdentity>() -> std::sync::Arc<dyn crat
 /// the peer identity every request reached the handler with (in order)
 static ORIGINS: std::sync::Mutex<Vec<String>> = std::sync::Mutex::new(Vec::new());
 
-const METHODS: [Method; 4] = [Method::GET, Method::POST, Method::PUT, Method::DELETE];
+// HEAD is answered by every GET route; OPTIONS and PATCH are what probes and preflights send
+const METHODS: [Method; 7] = [Method::GET, Method::POST, Method::PUT, Method::DELETE, Method::HEAD, Method::OPTIONS, Method::PATCH];
 
 fn alphabet() -> Vec<String> {
     // harvested from the AXUM_PATH constants of net/http_serde.rs (every literal segment), plus a
@@ -113,7 +114,9 @@ enum Class {
 fn classify(shard_server: bool, method: &Method, path: &str) -> Option<Class> {
     let p = path.trim_end_matches('/');
     let seg: Vec<&str> = p.split('/').filter(|s| !s.is_empty()).collect();
-    match (seg.as_slice(), method.as_str()) {
+    // a HEAD request is served by the GET route of the same path
+    let m = if *method == Method::HEAD { "GET" } else { method.as_str() };
+    match (seg.as_slice(), m) {
         (["echo"], "GET") => Some(Class::Collector),
         (["metrics"], "GET") if !shard_server => Some(Class::Collector),
         (["query"], "POST") if !shard_server => Some(Class::Collector), // create
